@@ -56,6 +56,9 @@ def run(ctx):
     b = cf.mir1("canary_hash_in_set_order")
     if not eqhash.unordered_loops(b):
         raise CanarySilent("H-ORDER does not see the hash-set loop in the canary")
+    b2 = cf.mir1("canary_for_each_in_set_order")
+    if not eqhash.internal_iteration_sites(b2, mir.cfg(b2), eqhash.sink_params(b2)):
+        raise CanarySilent("H-ORDER does not see the internal iteration (for_each with a captured sink) in the canary")
     fake = report.Ctx("canary", "quick", "other", cf)
     ok1, why1 = eqhash.combiner_check(fake, "canary_commutative")
     ok2, why2 = eqhash.combiner_check(fake, "canary_non_commutative")
